@@ -468,10 +468,12 @@ namespace Pistache
     {
         // An IPv6 literal must be bracketed, otherwise the port cannot be told
         // apart from the last group and the text cannot be parsed back.
+        // (the port as text: inserting the number would format it by the
+        // stream's locale, "8,080" where the locale groups digits)
         if (address.family() == AF_INET6)
-            os << "[" << address.host() << "]:" << address.port();
+            os << "[" << address.host() << "]:" << address.port().toString();
         else
-            os << address.host() << ":" << address.port();
+            os << address.host() << ":" << address.port().toString();
         return os;
     }
 
